@@ -3625,6 +3625,17 @@ KERNELS += [
          theorem="WW.KernelsLairUnbond.gen_lair_unbond_slash_eq_model", module="WW.Props.Kernels.LairUnbond"),
 ]
 
+# ---- the fee distributor's claim reward (C09): one statement inside the loop over `epoch.total` ---------------------------
+KERNELS += [
+    dict(lean="distributor_claim_reward", file=DIST_COMMANDS, fn="claim",
+         fragment=dict(start=r"^\s*let reward = fee\s*$", end=r"\.checked_mul_floor\(bonding_weight_response\.share\)\?;",
+                       params=[("fee_amount", "Uint128"), ("share", "Decimal")],
+                       subst=[("fee.amount", "fee_amount"), ("bonding_weight_response.share", "share")],
+                       result=["reward"]),
+         props=["C09"], model="the reward of WW.Distributor.claimFee",
+         theorem="WW.KernelsDistClaim.gen_distributor_claim_reward_eq_model", module="WW.Props.Kernels.DistClaim"),
+]
+
 # the generated file imports the map primitives next to the number primitives
 GEN_IMPORTS = ["import WW.Cw.Arith", "import WW.Cw.BTree"]
 
